@@ -275,6 +275,10 @@ func init() {
 							c.known("C13", "C13-refresh-save-failure-served", "refresh succeeded, Redis SET failed, request forwarded")
 						case (cmd == "GET" || cmd == "EVALSHA") && len(v.Hits) > 0:
 							c.violation("C13", "request forwarded as authenticated although the Redis "+cmd+" of its session/lock failed", input)
+							if cmd == "EVALSHA" {
+								// a lock that could not be acquired must not let the refresh proceed: the once-per-session guarantee rests on it
+								c.violation("C12", "refresh proceeded although the refresh lock could not be acquired (Redis error on the lock command)", input)
+							}
 						case cmd == "SET" && hasSessionSet(v, e.opts.Cookie.Name) && sc.name == "login":
 							c.violation("C13", "session cookie handed out although the Redis write failed", input)
 						case cmd == "DEL" && sc.name == "signout" && v.Status == 302:
